@@ -481,12 +481,22 @@ type Builder struct {
 	CLName  string // spelling of the Content-Length name
 	CLZeros int    // leading zeros in front of the Content-Length value (1*DIGIT: still decimal)
 	CLAt    int    // 0: Content-Length is the last header field; k > 0: it stands in front of header k-1
+	// Seps: what stands between the name and the value of header i instead of ": " (":" followed by any blanks; -1 is
+	// the Content-Length field the builder adds)
+	Seps map[int]string
 	EOL     string
 }
 
 func (b *Builder) Add(name, value string) *Builder {
 	b.Headers = append(b.Headers, Header{name, value})
 	return b
+}
+
+func (b *Builder) sep(i int) string {
+	if s, ok := b.Seps[i]; ok {
+		return s
+	}
+	return ": "
 }
 
 func (b *Builder) Bytes() []byte {
@@ -503,7 +513,7 @@ func (b *Builder) Bytes() []byte {
 			n = "Content-Length"
 		}
 		buf.WriteString(n)
-		buf.WriteString(": ")
+		buf.WriteString(b.sep(-1))
 		buf.WriteString(strings.Repeat("0", b.CLZeros))
 		buf.WriteString(strconv.Itoa(len(b.Body)))
 		buf.WriteString(eol)
@@ -515,7 +525,7 @@ func (b *Builder) Bytes() []byte {
 			done = true
 		}
 		buf.WriteString(h.Name)
-		buf.WriteString(": ")
+		buf.WriteString(b.sep(i))
 		buf.WriteString(h.Value)
 		buf.WriteString(eol)
 	}
